@@ -181,6 +181,8 @@ func runC04(c *Ctx) {
 	c04NormaliseTotal(c)
 	c04NilOutSameSide(c)
 	c03SubsetByPair(c, "SUBSET-BY-PAIR")
+	c03IndexAccumulates(c, "INDEX-ACCUMULATES")
+	c04SiblingSkipGuards(c, "SIBLING-SKIP-GUARDS")
 }
 
 // triEvalBool evaluates a boolean expression with the given identifiers bound to constants.
